@@ -66,6 +66,7 @@ type PrintCtx struct {
 
 	inGroupedMode bool
 	firstMember   bool // the next attribute is the first member of a nested JSON object
+	groupDepth    int  // > 0 while the members of a group are being written
 
 	// curdir string
 
@@ -96,6 +97,7 @@ func (s *PrintCtx) set(e *Entry, lvl Level, timestamp time.Time, stackFrame uint
 	s.setentry(e)
 
 	s.firstMember = false
+	s.groupDepth = 0
 	s.clr, s.bg = clrBasic, clrNone // a pooled context must not keep the previous record's colours
 	s.lvl = lvl
 	s.now = timestamp
